@@ -185,4 +185,169 @@ theorem planLoop_canon (c : SpecCfg) (pend : Pend) (hth : c.kind.threads = false
         rw [← i1]
         simp [List.append_assoc]
 
+/-! ### the handler: what runs after the last step -/
+
+/-- pending points inside the handler's future (`then` / `and_then` handlers of async macros return a future that is
+    awaited): after how many of its events it waits for which gate -/
+abbrev PendH := List Value → List (Nat × Nat)
+
+def handlerTask (c : SpecCfg) (pendH : PendH) (vs : List Value) : Task MEv (UR Value) :=
+  ⟨segmentBy (pendH vs) none [.ev (.handlerCall vs)], c.σ.handlerCall vs⟩
+
+/-- the macro's value when the step loop ended early -/
+def stopMap : Res Fin → Res Value
+  | .ok (.failed v) => .ok v
+  | .ok (.vals _) => .stuck
+  | .panic s => .panic s
+  | .stuck => .stuck
+
+def handlerPlan (c : SpecCfg) (pendH : PendH) (h : Option HKind) : Res Fin → List MEv × Plan MEv (UR Value) (Res Value)
+  | .ok (.vals vs) =>
+    match h with
+    | none => ([], .done (.ok (if c.kind.isTry then .succ (mkTuple vs) else mkTuple vs)))
+    | some hk =>
+      ([], .step isPanicUR (fun o => match o with | .panic n => .panic (.user n) | .ok v => .ok v)
+        [handlerTask c pendH vs] (fun _ => [])
+        (fun outs => .done (match outs with
+          | [.ok v] => .ok (match hk with | .map => .succ v | _ => v)
+          | _ => .stuck)))
+  | r => ([], .done (stopMap r))
+
+/-- the handler definition, the step loop, the handler — as one `M` computation over a `SpecCfg` (`specRun` is this) -/
+def specRunCfgL (loop : M Fin) (c : SpecCfg) (h : Option HKind) : M Value :=
+  (match h with
+    | some _ => (M.tell [.ev .handlerDef]).andThen fun _ => M.lift c.σ.handlerDef.toRes
+    | none => M.ret ()).andThen fun _ =>
+  loop.andThen fun f =>
+  specHandle c h f
+
+def specRunCfg (c : SpecCfg) (h : Option HKind) : M Value :=
+  specRunCfgL (specLoop c (c.maxDepth - 1) 0 (List.replicate c.n none)) c h
+
+/-- The whole `async move` block as a plan: the events emitted when it is entered (the handler definition, the block
+    captures of step 0) and what follows. -/
+def planRun (c : SpecCfg) (pend : Pend) (pendH : PendH) (h : Option HKind) : List MEv × Plan MEv (UR Value) (Res Value) :=
+  let pl := planLoop c pend (c.maxDepth - 1) 0 (List.replicate c.n none)
+  let b := pl.2.bind (handlerPlan c pendH h) stopMap
+  match h with
+  | none => (pl.1 ++ b.1, b.2)
+  | some _ =>
+    match c.σ.handlerDef with
+    | .panic n => ([.ev .handlerDef], .done (.panic (.user n)))
+    | .ok _ => ([.ev .handlerDef] ++ (pl.1 ++ b.1), b.2)
+
+/-- results a step of the loop can stop with -/
+def StopRes (r : Res Fin) : Prop := (∃ n, r = .panic (.user n)) ∨ ∃ v, r = .ok (.failed v)
+
+theorem planLoop_allStops (c : SpecCfg) (pend : Pend) : ∀ (rem k : Nat) (vals : List (Option Value)),
+    (planLoop c pend rem k vals).2.AllStops StopRes := by
+  have hst : ∀ o : UR Value, StopRes (onStopOf o) := by
+    intro o
+    cases o with
+    | panic n => exact Or.inl ⟨n, rfl⟩
+    | ok v => exact Or.inr ⟨v, rfl⟩
+  intro rem
+  induction rem with
+  | zero =>
+    intro k vals
+    unfold planLoop
+    simp only
+    split
+    · exact Plan.AllStops.done _
+    · exact Plan.AllStops.done _
+    · exact Plan.AllStops.step _ _ _ _ _ hst (fun _ => Plan.AllStops.done _)
+  | succ rem ih =>
+    intro k vals
+    unfold planLoop
+    simp only
+    split
+    · exact Plan.AllStops.done _
+    · exact Plan.AllStops.done _
+    · exact Plan.AllStops.step _ _ _ _ _ hst (fun _ => ih _ _)
+
+theorem handlerPlan_stop (c : SpecCfg) (pendH : PendH) (h : Option HKind) (r : Res Fin) (hr : StopRes r) :
+    handlerPlan c pendH h r = ([], .done (stopMap r)) := by
+  rcases hr with ⟨n, rfl⟩ | ⟨v, rfl⟩ <;> rfl
+
+/-- canonical run of the handler part = `specHandle` -/
+theorem handlerPlan_canon (c : SpecCfg) (pendH : PendH) (h : Option HKind) (f : Fin) :
+    (handlerPlan c pendH h (.ok f)).1 ++ (handlerPlan c pendH h (.ok f)).2.canon.1 = (specHandle c h f).trace ∧
+    (handlerPlan c pendH h (.ok f)).2.canon.2 = (specHandle c h f).res := by
+  cases f with
+  | failed v => exact ⟨rfl, rfl⟩
+  | vals vs =>
+    cases h with
+    | none => exact ⟨rfl, rfl⟩
+    | some hk =>
+      have hev : (handlerTask c pendH vs).allEvs = [.ev (.handlerCall vs)] := by simp [handlerTask, Task.allEvs, segmentBy_flat]
+      have hout : (handlerTask c pendH vs).out = c.σ.handlerCall vs := rfl
+      cases hc : c.σ.handlerCall vs with
+      | panic n =>
+        cases hk <;>
+          simp [handlerPlan, Plan.canon, firstStop, hout, hc, isPanicUR, hev, specHandle, M.andThen, M.tell, M.lift, UR.toRes]
+      | ok v =>
+        cases hk <;>
+          simp [handlerPlan, Plan.canon, firstStop, hout, hc, isPanicUR, hev, specHandle, M.andThen, M.tell, M.lift, UR.toRes,
+            M.ret]
+
+/-- canonical run of the whole block, for any reference loop the plan's step loop is canonically equal to -/
+theorem planRun_canon_gen (c : SpecCfg) (pend : Pend) (pendH : PendH) (h : Option HKind) (loop : M Fin)
+    (hl : (planLoop c pend (c.maxDepth - 1) 0 (List.replicate c.n none)).1 ++
+            (planLoop c pend (c.maxDepth - 1) 0 (List.replicate c.n none)).2.canon.1 = loop.trace ∧
+          (planLoop c pend (c.maxDepth - 1) 0 (List.replicate c.n none)).2.canon.2 = loop.res) :
+    (planRun c pend pendH h).1 ++ (planRun c pend pendH h).2.canon.1 = (specRunCfgL loop c h).trace ∧
+    (planRun c pend pendH h).2.canon.2 = (specRunCfgL loop c h).res := by
+  obtain ⟨l1, l2⟩ := hl
+  obtain ⟨b1, b2⟩ := Plan.bind_canon StopRes (handlerPlan c pendH h) stopMap (handlerPlan_stop c pendH h)
+    (planLoop c pend (c.maxDepth - 1) 0 (List.replicate c.n none)).2 (planLoop_allStops c pend _ _ _)
+  -- loop followed by handler, as an `M` computation
+  have hbody : (planLoop c pend (c.maxDepth - 1) 0 (List.replicate c.n none)).1 ++
+        (((planLoop c pend (c.maxDepth - 1) 0 (List.replicate c.n none)).2.bind (handlerPlan c pendH h) stopMap).1 ++
+         ((planLoop c pend (c.maxDepth - 1) 0 (List.replicate c.n none)).2.bind (handlerPlan c pendH h) stopMap).2.canon.1) =
+        (loop.andThen fun f => specHandle c h f).trace ∧
+      ((planLoop c pend (c.maxDepth - 1) 0 (List.replicate c.n none)).2.bind (handlerPlan c pendH h) stopMap).2.canon.2 =
+        (loop.andThen fun f => specHandle c h f).res := by
+    rw [b1, b2, l2]
+    cases hres : loop.res with
+    | ok f =>
+      obtain ⟨h1, h2⟩ := handlerPlan_canon c pendH h f
+      refine ⟨?_, by simp [M.andThen, hres, h2]⟩
+      simp only [M.andThen, hres]
+      rw [← l1, ← h1]
+      simp [List.append_assoc]
+    | panic s =>
+      simp only [M.andThen, hres]
+      rw [← l1]
+      simp [handlerPlan, stopMap, Plan.canon]
+    | stuck =>
+      simp only [M.andThen, hres]
+      rw [← l1]
+      simp [handlerPlan, stopMap, Plan.canon]
+  cases h with
+  | none =>
+    simp only [planRun, specRunCfgL]
+    obtain ⟨hb1, hb2⟩ := hbody
+    refine ⟨?_, ?_⟩
+    · rw [List.append_assoc, hb1]; simp [M.andThen, M.ret]
+    · rw [hb2]; simp [M.andThen, M.ret]
+  | some hk =>
+    obtain ⟨hb1, hb2⟩ := hbody
+    simp only [planRun, specRunCfgL]
+    cases hd : c.σ.handlerDef with
+    | panic n => simp [M.andThen, M.tell, M.lift, UR.toRes, Plan.canon]
+    | ok u =>
+      simp only
+      refine ⟨?_, ?_⟩
+      · rw [List.append_assoc, List.append_assoc, hb1]; simp [M.andThen, M.tell, M.lift, UR.toRes]
+      · rw [hb2]; simp [M.andThen, M.tell, M.lift, UR.toRes]
+
+/-- **Canonical schedule = sequential reference, handler included.**  For the non-try async macros the canonical run of
+    the whole block — handler definition, step loop, handler call with its awaited future — produces exactly the events
+    and the outcome of the reference semantics `specRunCfg` (= `specRun`). -/
+theorem planRun_canon (c : SpecCfg) (pend : Pend) (pendH : PendH) (h : Option HKind) (hth : c.kind.threads = false)
+    (htry : c.kind.isTry = false) :
+    (planRun c pend pendH h).1 ++ (planRun c pend pendH h).2.canon.1 = (specRunCfg c h).trace ∧
+    (planRun c pend pendH h).2.canon.2 = (specRunCfg c h).res :=
+  planRun_canon_gen c pend pendH h _ (planLoop_canon c pend hth htry (c.maxDepth - 1) 0 (List.replicate c.n none))
+
 end JoinModel
